@@ -1,6 +1,7 @@
 import GeomV.C14.Proofs
+import GeomV.C14.Scale
 /-!
-# C14 known finding: the external sweep loses a vertex at coordinate scale 2^-30
+# C14 finding (fixed in /repo by `clipLine`): the external sweep loses a vertex at coordinate scale 2^-30
 
 polyclip-go v1.1.0 `findIntersection` decides "parallel" by `kross² > 1e-21 · |d0| · |d1|` with `|·|` the LENGTH
 (`Point.Length`, not the squared length its variable names suggest): dimensionally inconsistent, so two
@@ -10,7 +11,11 @@ seed 1, the line of replay `C14-MLS2_MPG_cross_many_tiny-ccb5936c`): at scale 2^
 second member lies inside `P`, both adjoining segments cross the boundary within 0.09 units of it, and the returned
 piece joins the two crossing points directly.  The same figure is clipped correctly at every scale ≥ 2^-28.
 
-Here: the answer observed from the real code violates the contract `ClipLineSpec` — proved on the exact values.
+Here: the answer observed from the real code BEFORE the fix violates the contract `ClipLineSpec` — proved on
+the exact values (a statement about the raw sweep at that scale; it stays true).  The fix in geom
+(`clipLine`, linestring.go) no longer hands the clipper operands of that size: `known_now_scaled` — for this
+witness the factor is 2^25 (second member; 2^26 for the first), the clipper sees coordinates of order 1/2, where
+the same figure was always clipped correctly; the corpus cases (scales 2^-28, 2^-30, 2^-40) are judged `OK`.
 -/
 namespace GeomV.C14
 open GeomV GeomV.C01
@@ -45,5 +50,13 @@ theorem C14_known_small_scale (line : Contours → Contours → Contours) (h : l
   have := (hpts knownV).2 ⟨f5, by simp [insideClosedC, f6]⟩
   rw [h, f7] at this
   cases this
+
+/-- after the fix the clipper is called on the witness scaled up by 2^25 / 2^26 (largest coordinate in [1/2, 1)) -/
+theorem known_now_scaled :
+    scaleOf [[⟨(17/1073741824 : Rat), (5/536870912 : Rat)⟩, ⟨(1/1073741824 : Rat), (-1/1073741824 : Rat)⟩, ⟨(9/1073741824 : Rat), (0 : Rat)⟩, ⟨(1/536870912 : Rat), (-1/536870912 : Rat)⟩]] knownC = 33554432 ∧
+    scaleOf [[⟨(3/1073741824 : Rat), (0 : Rat)⟩, ⟨(7/536870912 : Rat), (1/1073741824 : Rat)⟩]] knownC = 67108864 ∧
+    Go.frexpExp (3/8) = -1 ∧ Go.frexpExp (1/2) = 0 ∧ Go.frexpExp 1 = 1 ∧ Go.frexpExp (17/1073741824) = -25 ∧
+    Go.ldexp 3 (-2) = 3/4 ∧ Go.ldexp 3 2 = 12 := by
+  decide +kernel
 
 end GeomV.C14
